@@ -44,6 +44,8 @@ MUT = [
  ('m28-serialize-entry-b-returns-empty', S + 'serialize_archive.h', 'igris::serializer<string_storage, Protocol> archive(storage);\n        archive.serialize(obj);\n        return storage.storage();', 'string_storage copy = storage;\n        igris::serializer<string_storage, Protocol> archive(copy);\n        archive.serialize(obj);\n        return storage.storage();'),
  ('m29-vector-writer-count-is-capacity', S + 'stdtypes.h', 'igris::serialize(keeper, (uint16_t)vec.size());', 'igris::serialize(keeper, (uint16_t)vec.capacity());'),
  ('m30-storage-ctor-cursor-one', S + 'serialize_storage.h', 'size_t cursor = 0;', 'size_t cursor = 1;'),
+ ('m31-long-double-image-not-zeroed', S + 'archive.h', 'char image[sizeof(i)] = {};', 'char image[sizeof(i)];'),
+ ('m32-protocol-long-double-copies-whole-object', S + 'serialize_protocol.h', 'memcpy(image, &obj, 10);', 'memcpy(image, &obj, sizeof(image));'),
 ]
 def main():
     pat = sys.argv[1] if len(sys.argv) > 1 else ''
